@@ -171,11 +171,13 @@ func init() {
 type streamConvertPair struct {
 	concatStream  func(sr streamReader) (any, error)
 	restoreStream func(any) (streamReader, error)
+	zeroValue     func() any // what a stream without chunks is as a value
 }
 
 func defaultStreamConvertPair[T any]() streamConvertPair {
 	var t T
 	return streamConvertPair{
+		zeroValue: func() any { var zero T; return zero },
 		concatStream: func(sr streamReader) (any, error) {
 			tsr, ok := unpackStreamReader[T](sr)
 			if !ok {
